@@ -391,6 +391,9 @@ def c15(run):
         outs.append(out)
     run.sample_file(outs[2], k=2)
     run.replay(outs, "Ownership state graphs")
+    for nn in (5, 8):
+        run.record_and_validate("Ownership-%d" % nn, "Trace_Ownership", "Trace_Ownership.n%d.cfg" % nn,
+                                n_files=2 if q else 8, n_events=4000 if q else 15000)
     path, descs = _destructure_descs(run, run.tier)
     ps = progs.ProgSet(run, "C15-destructure", prelude=gd.LEDGER_PRELUDE)
     for r in descs:
